@@ -214,7 +214,7 @@ def classify(name, k, info, raw):
 
 
 # ---- random lenses for trace validation (arbitrary floats, everything via the public API) ----
-def random_lens(rnd, catalogue=False, conic_free=False, last_air=0.9, p_catalogue=0.1, p_zero_field=0.0):
+def random_lens(rnd, catalogue=False, conic_free=False, last_air=0.9, p_catalogue=0.1, p_zero_field=0.0, force=None):
     """Axially symmetric random prescription: spheres, conics, planes, even aspheres (with and
     without an r^2 term), mirrors (negative separations behind them), any stop position, finite
     or infinite object, the three aperture types and both field types.  Returns (optic, meta)."""
@@ -224,14 +224,20 @@ def random_lens(rnd, catalogue=False, conic_free=False, last_air=0.9, p_catalogu
     o = Optic()
     n = rnd.randint(1, 8)
     finite = rnd.random() < 0.45
+    force = force or {}
+    if "finite" in force:
+        finite = force["finite"]
     epd = rnd.uniform(1.0, 8.0)
     lo = 4.0 * epd
     obj_t = rnd.uniform(40.0, 400.0) if finite else math.inf
-    o.add_surface(index=0, thickness=obj_t)
+    # the object may be immersed (object NA = n0 sin(theta) then differs from sin(theta))
+    immersed = force.get("immersed", rnd.random() < 0.3)
+    o.add_surface(index=0, thickness=obj_t,
+                  material=IdealMaterial(n=round(rnd.uniform(1.2, 1.7), 3)) if immersed else "air")
     stop = rnd.choice([1, n, rnd.randint(1, n)])
     sign = 1.0
     in_glass = False
-    meta = {"nsurf": n, "finite_object": finite, "stop": stop, "mirrors": 0, "aspheres": 0}
+    meta = {"nsurf": n, "finite_object": finite, "stop": stop, "mirrors": 0, "aspheres": 0, "immersed_object": immersed}
     for j in range(1, n + 1):
         plane = rnd.random() < 0.15
         R = math.inf if plane else rnd.choice([-1, 1]) * math.exp(rnd.uniform(math.log(lo), math.log(800.0)))
@@ -267,6 +273,7 @@ def random_lens(rnd, catalogue=False, conic_free=False, last_air=0.9, p_catalogu
         quiet(o.add_surface, **kw)
     o.add_surface(index=n + 1)
     apt = rnd.choice(["EPD", "EPD", "imageFNO", "objectNA"] if finite else ["EPD", "EPD", "imageFNO"])
+    apt = force.get("aperture", apt)
     o.set_aperture(apt, {"EPD": epd, "imageFNO": rnd.uniform(2.0, 10.0), "objectNA": rnd.uniform(0.01, 0.1)}[apt])
     ft = "object_height" if (finite and rnd.random() < 0.5) else "angle"
     o.set_field_type(ft)
